@@ -68,3 +68,25 @@ for (n, p, b) in split_funcs(dec):
     out += lemma(n, p, b)
 out += "End Eq.\n"
 open(os.path.join(V, 'coq/theories/SchemaSemEq.v'), 'w').write(out)
+
+# ---- conformance functions of Roundtrip.v
+src = open(os.path.join(V, 'coq/theories/Roundtrip.v')).read()
+conf = group("  Fixpoint conf_ty (fuel : nat)", "End Conf.")
+out = '''(** Defining equations of the mutual fixpoints of Roundtrip.v (each by [reflexivity]).
+    GENERATED from Roundtrip.v by lib/gen_eq.py - do not edit. *)
+From Coq Require Import ZArith List Bool String.
+From KV Require Import Base Wire Cursor Schema SchemaSem FaithfulProofs Roundtrip.
+Import ListNotations.
+Open Scope Z_scope.
+
+Section Eq.
+  Variable S : schema.
+  Local Notation conf_ty := (Roundtrip.conf_ty S).
+  Local Notation conf_list := (Roundtrip.conf_list S).
+  Local Notation conf_fields := (Roundtrip.conf_fields S).
+
+'''
+for (n, p, b) in split_funcs(conf):
+    out += lemma(n, p, b)
+out += "End Eq.\n"
+open(os.path.join(V, 'coq/theories/RoundtripEq.v'), 'w').write(out)
